@@ -216,6 +216,32 @@ def run_case(case: dict) -> dict:
             counters["scan:success_compared"] = counters.get("scan:success_compared", 0) + 1
             if bad:
                 viols.append(core.viol("scan: " + bad.pop("what"), None, net=net.to_json(), scanned={kout: kv}, **bad))
+        if rng.random() < 0.5:
+            # the same network in small units (an influx of a few nanomolar per second): every row is the steady state of the
+            # model with THAT row's influx, so the influx it reports is the row's value (a zero-order rate is its constant)
+            kin_name = [r["k"] for r in net.rxns if r["name"] == "vin"][0]
+            small = rm.build(net.spec())
+            small.update_parameter(kin_name, 1e-9)
+            kins = [2e-9, 4e-9, 1e-9, 8e-9]
+            rs = scan.steady_state(small, to_scan=pd.DataFrame({kin_name: kins}), parallel=par)
+            for i, kv in enumerate(kins):
+                got = float(rs.fluxes.iloc[i]["vin"])
+                counters["scan:small_units_rows"] = counters.get("scan:small_units_rows", 0) + 1
+                if not (np.isnan(got) or abs(got - kv) <= 1e-12 * kv):
+                    viols.append(core.viol("scan row reports the influx of another parameter value than its own", None, net=net.to_json(), scanned={kin_name: kv}, reported_influx=got, model_value_before_the_scan=1e-9))
+                    break
+            # a second search on one simulator after the influx was changed through the plural setter
+            from mxlpy import Simulator as _S
+
+            s2 = _S(small)
+            s2.simulate_to_steady_state()
+            s2.update_parameters({kin_name: 4e-9})
+            s2.simulate_to_steady_state()
+            r2 = s2.get_result().value
+            if not isinstance(r2, Exception):
+                got = float(r2.get_fluxes(concatenated=False)[-1].iloc[-1]["vin"])
+                if abs(got - 4e-9) > 1e-21:
+                    viols.append(core.viol("steady state after update_parameters reports the influx of the earlier value", None, net=net.to_json(), reported_influx=got, set_to=4e-9))
         sample = {"scan": {kout: vals}, "net": net.to_json(), "parallel": par}
     return core.result(sig=case["seed"], nontrivial=nontrivial, violations=viols[:3], counters=counters,
                        sample=sample if case.get("idx", 0) < 9 and case.get("idx", 0) % 4 == 0 else None)
